@@ -266,6 +266,38 @@ def C17(tier, seed):
         extra=dict(traces_validated_against_impl=n_cases))
 
 
+def C10(tier, seed):
+    from harness import features
+    from .core import Run
+
+    q = tier == "quick"
+    runs = []
+    for seg in (True, False):
+        runs.append(Run(f"switch:{'seg' if seg else 'noseg'}", features.switch_harness,
+                        dict(seg=seg, max_keys=2 if (q or seg) else 3), features.replay, ("switched", "unknown_key"),
+                        "every activation table over all available features, enable/disable with every key list of "
+                        "length <= 2 over the available keys plus an unknown key"))
+        runs.append(Run(f"protect:{'seg' if seg else 'noseg'}", features.protect_harness, dict(seg=seg),
+                        features.replay, ("protected", "free"),
+                        "every activation table, attribute update (primitive and user action) of every managed key, "
+                        "time, a custom and an unregistered key"))
+    g2, g3 = (2, 1, 2), (3, 1, 2)
+    specs = [("paint", 2, g2, {"disable": ["area"]}), ("paint", 2, g2, {"all_rp": True, "disable": ["circularity", "pos"]}),
+             ("UserAddEdge", 3, g3, {"iou": True, "disable": ["iou"]}),
+             ("paint", 2, g3, {"iou": True, "disable": ["iou"]})]
+    runs += R.seg_runs("C10", tier, specs)
+    en = [(k, 2 if q else 3, g2 if q else g3, {"scale": "sym"}) for k in ("circularity", "perimeter")] + [
+        ("iou", 3, g3, {})]
+    runs += R.enable_runs("C10", tier, en)
+    return run_property("C10", tier, runs, explanation=R.EXPL, seed=seed,
+                        assumptions=R.SEG_ASSUME + [
+                            "sequences of switches and edits follow by induction: the activation table and the stored "
+                            "values of disabled features are arbitrary in the pre-state",
+                            "values after enable-with-recompute are checked against the C08/C09 reference terms "
+                            "(regionprops / IoU contract stubs); track/lineage ids recomputed by the constructor are "
+                            "covered under C04/C05"], stubs=R.SEG_STUBS)
+
+
 def replay_file(prop, path):
     from harness import labels, relabel, seg_replay, step_replay
 
@@ -285,6 +317,10 @@ def replay_file(prop, path):
         fn = labels.bytrack_replay
     elif run in ("relabel_segmentation", "handle_segmentation"):
         fn = relabel.replay
+    elif run.startswith(("switch:", "protect:")):
+        from harness import features
+
+        fn = features.replay
     elif prop == "C17":
         from harness import names
 
